@@ -55,6 +55,14 @@ def showOut : Out → String
   | .task t => "ok " ++ encTask t
   | .tasks ts => s!"ok {ts.length} " ++ " ".intercalate (ts.map encTask)
 
+/-- C19: the harness's scribble marker must never come back from the store. -/
+def scribbleLeak (ts : List Task) : List String :=
+  ts.filterMap fun t =>
+    let bad (m : SMap) := m.any fun kv => kv.1 == "scribbled-by-client" || (kv.2.splitOn "#scribbled").length > 1
+    if bad t.param || bad t.meta_ then
+      some s!"MON C19 task {t.id} came back from the store carrying what the client scribbled into a map it had passed in or received earlier"
+    else none
+
 def isMutation : Op → Bool
   | .add .. | .update .. | .cancel .. | .dispatch .. | .done .. | .revert | .cancelDispatched
   | .deleteEnded => true
@@ -129,7 +137,7 @@ def stepLine (s : S) (req resp : List String) : S × List String :=
             (Mon.c12Step s.dump ts p.op p.out).map ("MON C12 " ++ ·) ++
             (if p.ctx then [] else (Mon.c13 s.dump ts p.op p.now).map ("MON C13 " ++ ·))
         let nt := s.nontrivial || ts.any (·.state != .scheduled)
-        ({ s with dump := ts, pending := none, nontrivial := nt }, d1 ++ mons)
+        ({ s with dump := ts, pending := none, nontrivial := nt }, d1 ++ mons ++ scribbleLeak ts)
     | _ => (s, ["DIFF parse bad dump"])
   | "mismatch" :: prop :: rest => (s, [s!"MON {prop} " ++ " ".intercalate rest])
   | ["sav"] => (s, [])
@@ -190,8 +198,8 @@ def stepLine (s : S) (req resp : List String) : S × List String :=
            | .find q off lim, false => (Mon.c11 s.dump exact q off lim out).map ("MON C11 " ++ ·)
            | _, _ => []) ++
           (match out with
-           | .task t => (Mon.c12Task t).map ("MON C12 " ++ ·)
-           | .tasks ts => (ts.flatMap Mon.c12Task).map ("MON C12 " ++ ·)
+           | .task t => (Mon.c12Task t).map ("MON C12 " ++ ·) ++ scribbleLeak [t]
+           | .tasks ts => (ts.flatMap Mon.c12Task).map ("MON C12 " ++ ·) ++ scribbleLeak ts
            | _ => [])
         ({ s with model := m', mem := mem', pending := some { op, ctx, out, now }, ops := s.ops + 1,
                   errs := s.errs + (if out.isErr then 1 else 0),
